@@ -18,6 +18,10 @@ def make_lines(rng, n):
     for i in range(n):
         ops = pc.mixed_ops(rng)
         tol = rng.choice([0.1, 0.01, 1.0, 0.5, 0.05])
+        if i % 10 == 3:
+            # coordinates that are not on any grid (and some far from the origin): nothing the flattener computes is exact
+            off = rng.choice([0.0, 0.0, 1000.0, 300000.0])
+            ops = pc.mixed_ops(rng, pt=lambda r: (off + r.random() * 60 - 10, r.random() * 60 - 10))
         if i % 40 == 39:
             # large curves at a fine tolerance: hundreds of segments per curve
             big = lambda r: (r.randrange(-200, 4000) / 4.0, r.randrange(-200, 4000) / 4.0)
@@ -153,6 +157,11 @@ def fill_vs_flatten(ctx):
     ctx.cov["fill_vs_flatten_pairs"] = len(B)
     B2 = ["scene %s %d %d I %s ; xf %s ; %s" % (lb.split()[1], W, H, zero, scene.xf_tokens(scene.IDENT), lb.split(" ; ", 1)[1]) for lb in B]
     C08.eval_scenes(ctx, B2, meta, what="flatfill")
+    if not ctx.violations:
+        # ... and so must the fill of the path itself: the two fills agree because both are the same exact shape (a curve
+        # that is the first op, or follows Close, starts where flatten() says it starts)
+        A2 = ["scene %s %d %d I %s ; xf %s ; %s" % (la.split()[1], W, H, zero, scene.xf_tokens(scene.IDENT), la.split(" ; ", 1)[1]) for la in A]
+        C08.eval_scenes(ctx, A2, meta, what="origfill")
 
 
 def run(ctx):
